@@ -388,6 +388,208 @@ theorem sim_step {v : Variant} (hooked : Bool) {s : State} (hr : Reach v s) {l :
   case fwdRemove i => exact sim_fwdRemove hr hs
   all_goals exact sim_global rfl hs
 
+/-! ### … and conversely (the reduction loses no behaviour) -/
+
+/-- Observations of an *enabled* label are the same in `s` and in its normal form. -/
+theorem obs_transfer_rev {v : Variant} {s : State} {l : Label} {o : Obs} {s' : State}
+    (hs : step v s l = some s') (h : l ∈ obsLabels s o) : l ∈ obsLabels (N s) o := by
+  cases o with
+  | bcall x => simpa [obsLabels] using h
+  | bret t => simpa [obsLabels] using h
+  | scall n => simpa [obsLabels] using h
+  | sret t => simpa [obsLabels] using h
+  | ccall => simpa [obsLabels] using h
+  | cret => simpa [obsLabels] using h
+  | bacq x => simpa [obsLabels] using h
+  | cancel t => simpa [obsLabels] using h
+  | recv t x =>
+    simp only [obsLabels, mem_filterMap_range] at h ⊢
+    obtain ⟨i, hi, hg⟩ := h
+    refine ⟨i, by simpa using hi, ?_⟩
+    rw [N_get]
+    cases hu : s.subs[i]? with
+    | none => simp [hu] at hg
+    | some u =>
+      simp only [hu] at hg
+      split at hg
+      · next hc =>
+        simp at hg; subst hg
+        -- the step is `fwdDeliver i`: the forwarder is holding, hence not exited
+        simp only [step, fwdDeliver, hu] at hs
+        have hpc : u.pc = .holding := by
+          cases hp : u.pc <;> simp [hp] at hs ⊢
+        have he : exited u = false := by simp [exited, hpc]
+        simp [normSub_of_not_exited he, hc]
+      · simp at hg
+
+def SimRev (v : Variant) (s : State) (l : Label) (s' : State) : Prop :=
+  ∃ x', step v (N s) l = some x' ∧ N x' = N s'
+
+theorem rev_global {v s l s'} (hl : l.global = true) (hs : step v s l = some s') : SimRev v s l s' :=
+  ⟨N s', by rw [step_N_global hl, hs]; rfl, N_idem s'⟩
+
+theorem exited_of_pc {u : Sub} {p : FPc} (hp : u.pc = p) (h1 : p ≠ .wantLock) (h2 : p ≠ .done) :
+    exited u = false := by
+  cases p <;> simp_all [exited]
+
+theorem rev_sub {v s l s'} {i : Nat} {u : Sub} {f : Sub → Sub} (hu : s.subs[i]? = some u)
+    (hs' : s' = setSub s i (f u)) (hN : normSub (f (normSub u)) = normSub (f u))
+    (hstep : step v (N s) l = some (setSub (N s) i (f (normSub u)))) : SimRev v s l s' :=
+  ⟨_, hstep, by rw [hs']; exact N_setSub hN⟩
+
+theorem rev_fwdTake {v s i s'} (hs : step v s (.fwdTake i) = some s') : SimRev v s (.fwdTake i) s' := by
+  simp only [step, fwdTake] at hs
+  split at hs
+  · next u hu =>
+    split at hs
+    · next x rest hpc hb =>
+      simp at hs
+      have he := exited_of_pc hpc (by simp) (by simp)
+      refine rev_sub (f := fun w => { w with hand := some x, buf := rest, pc := .holding }) hu hs.symm
+        (by rw [normSub_of_not_exited he]) ?_
+      simp [step, fwdTake, N_get, hu, normSub_of_not_exited he, hpc, hb]
+    · simp at hs
+  · simp at hs
+
+theorem rev_fwdDeliver {v s i s'} (hs : step v s (.fwdDeliver i) = some s') :
+    SimRev v s (.fwdDeliver i) s' := by
+  simp only [step, fwdDeliver] at hs
+  split at hs
+  · next u hu =>
+    split at hs
+    · next x hpc hh =>
+      simp at hs
+      have he := exited_of_pc hpc (by simp) (by simp)
+      refine rev_sub (f := fun w => { w with delivered := w.delivered ++ [x], hand := none, pc := .idle })
+        hu hs.symm (by rw [normSub_of_not_exited he]) ?_
+      simp [step, fwdDeliver, N_get, hu, normSub_of_not_exited he, hpc, hh]
+    · simp at hs
+  · simp at hs
+
+theorem rev_fwdExitCtx {v s i s'} (hs : step v s (.fwdExitCtx i) = some s') :
+    SimRev v s (.fwdExitCtx i) s' := by
+  simp only [step, fwdExitCtx] at hs
+  split at hs
+  · next u hu =>
+    split at hs
+    · next hg =>
+      simp at hs
+      have he := not_exited_of_inLoop hg.1
+      refine rev_sub (f := fun w => { w with pc := .exiting }) hu hs.symm
+        (by rw [normSub_of_not_exited he]) ?_
+      simp [step, fwdExitCtx, N_get, hu, normSub_of_not_exited he, hg.1, hg.2]
+    · simp at hs
+  · simp at hs
+
+theorem rev_fwdExitClose {v s i s'} (hs : step v s (.fwdExitClose i) = some s') :
+    SimRev v s (.fwdExitClose i) s' := by
+  simp only [step, fwdExitClose] at hs
+  split at hs
+  · next u hu =>
+    split at hs
+    · next hg =>
+      simp at hs
+      have he := not_exited_of_inLoop hg.1
+      refine rev_sub (f := fun w => { w with pc := .exiting }) hu hs.symm
+        (by rw [normSub_of_not_exited he]) ?_
+      simp [step, fwdExitClose, N_get, hu, normSub_of_not_exited he, hg.1, hg.2]
+    · simp at hs
+  · simp at hs
+
+theorem rev_fwdCloseExit {v s i s'} (hs : step v s (.fwdCloseExit i) = some s') :
+    SimRev v s (.fwdCloseExit i) s' := by
+  simp only [step, fwdCloseExit] at hs
+  split at hs
+  · next u hu =>
+    split at hs
+    · next hg =>
+      simp at hs
+      have he := exited_of_pc hg (by simp) (by simp)
+      refine rev_sub (f := fun w => { w with exitClosed := true, pc := .wantLock }) hu hs.symm
+        (by rw [normSub_of_not_exited he]) ?_
+      simp [step, fwdCloseExit, N_get, hu, normSub_of_not_exited he, hg]
+    · simp at hs
+  · simp at hs
+
+theorem rev_fwdRemove {v s i s'} (hr : Reach v s) (hs : step v s (.fwdRemove i) = some s') :
+    SimRev v s (.fwdRemove i) s' := by
+  have hw := wf_reach s hr
+  have hid := idinv_reach s hr
+  obtain ⟨u, hu, hpc, hbc, rfl⟩ := fwdRemove_spec hw hid (by simpa [step] using hs)
+  have hin : u.inList = true := by
+    cases h : u.inList with
+    | true => rfl
+    | false => have := (hw.subs i u hu).listPc.mp h; simp [hpc] at this
+  have hrt := removeTarget_eq hid hu hin
+  refine rev_sub (f := fun w => { w with inList := false, pc := .done }) hu rfl ?_ ?_
+  · cases hp : u.pc <;> simp [normSub, hp]
+  · simp [step, fwdRemove, N_get, hu, hpc, hbc, removeTarget_N, hrt]
+
+theorem rev_fan {v s l s'} {e : Entry} {pc : Nat} {u : Sub} {f : Sub → Sub}
+    (hs' : s' = { s with subs := s.subs.set pc (f u), bc := some (e, pc + 1) })
+    (hN : normSub (f (normSub u)) = normSub (f u))
+    (hstep : step v (N s) l =
+      some { N s with subs := (N s).subs.set pc (f (normSub u)), bc := some (e, pc + 1) }) :
+    SimRev v s l s' :=
+  ⟨_, hstep, by rw [hs']; exact N_fan hN⟩
+
+theorem rev_bcPush {v s s'} (hs : step v s .bcPush = some s') : SimRev v s .bcPush s' := by
+  simp only [step, bcPush] at hs
+  split at hs
+  · next e pc hbc =>
+    split at hs
+    · next u hu =>
+      split at hs
+      · next hg =>
+        simp at hs
+        refine rev_fan (f := fun w => { w with buf := w.buf ++ [e] }) hs.symm ?_ ?_
+        · cases hp : u.pc <;> simp [normSub, hp]
+        · have hlen : (normSub u).buf.length < bufferSize := by
+            cases he : exited u with
+            | false => rw [normSub_of_not_exited he]; exact hg.2
+            | true => rw [normSub_of_exited he]; simp [bufferSize, Kit.Generated.C11.bufferSize]
+          simp [step, bcPush, hbc, N_get, hu, hg.1, hlen]
+      · simp at hs
+    · simp at hs
+  · simp at hs
+
+theorem rev_skip {v s s'} {l : Label}
+    (hl : l = .bcSkipExit ∨ l = .bcSkipClose ∨ l = .bcSkipGone)
+    (hs : step v s l = some s') : SimRev v s l s' := by
+  rcases hl with rfl | rfl | rfl
+  all_goals
+    simp only [step, bcSkipExit, bcSkipClose, bcSkipGone] at hs
+    split at hs
+    · next e pc hbc =>
+      split at hs
+      · next u hu =>
+        split at hs
+        · next hg =>
+          simp at hs
+          refine rev_fan (f := fun w => { w with missed := true }) hs.symm ?_ ?_
+          · cases hp : u.pc <;> simp [normSub, hp]
+          · simp [step, bcSkipExit, bcSkipClose, bcSkipGone, hbc, N_get, hu, hg]
+        · simp at hs
+      · simp at hs
+    · simp at hs
+
+/-- `sim_step_rev`: conversely every step of a reachable state is matched by the *same* label from
+its normal form, into states with the same normal form. -/
+theorem sim_step_rev {v : Variant} {s : State} (hr : Reach v s) {l : Label} {s' : State}
+    (hs : step v s l = some s') : ∃ x', step v (N s) l = some x' ∧ N x' = N s' := by
+  cases l
+  case bcPush => exact rev_bcPush hs
+  case bcSkipExit => exact rev_skip (Or.inl rfl) hs
+  case bcSkipClose => exact rev_skip (Or.inr (Or.inl rfl)) hs
+  case bcSkipGone => exact rev_skip (Or.inr (Or.inr rfl)) hs
+  case fwdTake i => exact rev_fwdTake hs
+  case fwdDeliver i => exact rev_fwdDeliver hs
+  case fwdExitCtx i => exact rev_fwdExitCtx hs
+  case fwdExitClose i => exact rev_fwdExitClose hs
+  case fwdCloseExit i => exact rev_fwdCloseExit hs
+  case fwdRemove i => exact rev_fwdRemove hr hs
+  all_goals exact rev_global rfl hs
+
 /-! ### soundness of the work-list acceptor -/
 
 theorem exec_reach {v hooked tr ls s} (h : Exec v hooked tr ls s) : Reach v s := by
